@@ -1319,6 +1319,14 @@ class ConnectionBase(object):
                 self.stats.dropped += 1
                 return False
 
+        # a packet which is older than the receive window can not be told
+        # apart from a duplicate or a replay of a packet that was already
+        # received. treat it as lost.
+        current = self.bitfield_pkt.current_seqnum
+        if current != 0 and current.diff(pkt.hdr.seq) > self.bitfield_pkt.nbits:
+            self.stats.dropped += 1
+            return False
+
         try:
             # TODO: log warning for packet flooding
             # if inserting dropped unacked bits then those packets will time out
